@@ -75,6 +75,26 @@ func concOps() []concOp {
 			return "opt:" + observeGraph(s).enc() + "|" + observeGraph(s2).enc()
 		},
 	)
+	ops = append(ops,
+		// calls that would leave something behind if the package kept state between calls: an STL text that ends
+		// on a floating diacritic (nothing follows it), a TTML write with the indent option
+		func(seed uint64) string {
+			g := genSTLGT(newRng(seed%50, "stl-trail"), stlSymbolBytes(), false)
+			g.dsc = '0'
+			g.blocks = append(g.blocks, stlBlock{sn: len(g.blocks), ebn: 0xff, in: stlTC{1, 0, 0, 0}, out: stlTC{1, 0, 2, 0}, vp: 20, jc: 2,
+				text: append([]byte("pending"), byte(0xc1+seed%15))})
+			_, out := stlReadOut(false, g.bytes())
+			return "stl-trail:" + out
+		},
+		func(seed uint64) string {
+			s := genSubs(newRng(seed, "subs"), "ttml")
+			var b bytes.Buffer
+			if err := s.WriteToTTML(&b, astisub.WriteToTTMLWithIndentOption([]string{"\t", "  ", ""}[seed%3])); err != nil {
+				return "ttml-indent:" + errClass(err)
+			}
+			return "ttml-indent:" + encBytes(b.Bytes())
+		},
+	)
 	ops = append(ops, extraConcOps...)
 	return ops
 }
@@ -98,6 +118,13 @@ func init() {
 		want := make([]string, k)
 		for i, j := range jobs {
 			want[i] = guard(func() string { return j.op(j.seed) })
+		}
+		// run alone = whatever ran before: the same jobs one after the other in the opposite order
+		for i := k - 1; i >= 0; i-- {
+			j := jobs[i]
+			if again := guard(func() string { return j.op(j.seed) }); again != want[i] {
+				return fmt.Sprintf("diff sequential op=%d (the answer depends on the calls made before it)", i)
+			}
 		}
 		old := runtime.GOMAXPROCS(procs)
 		defer runtime.GOMAXPROCS(old)
@@ -154,9 +181,16 @@ func init() {
 			return encBytes(b.Bytes())
 		}
 		old := astisub.Now
-		astisub.Now = func() time.Time { return time.Date(2024, 3, 9, 10, 0, 0, 0, time.UTC) }
 		defer func() { astisub.Now = old }()
+		// the clock matters only when the metadata does not supply both STL dates: when it does, the clock moves
+		// between repetitions and the bytes must not
+		suppliesDates := s.Metadata != nil && s.Metadata.STLCreationDate != nil && s.Metadata.STLRevisionDate != nil
 		for rep := 0; rep < 50; rep++ {
+			now := time.Date(2024, 3, 9, 10, 0, 0, 0, time.UTC)
+			if suppliesDates && rep%2 == 1 {
+				now = time.Date(2031, 12, 25, 23, 0, 0, 0, time.UTC)
+			}
+			astisub.Now = func() time.Time { return now }
 			// a different writer order each repetition
 			for k := 0; k < len(formats); k++ {
 				f := formats[(k*(rep%4+1)+rep)%len(formats)]
@@ -329,10 +363,17 @@ func genStyledSubs(r *rng) *astisub.Subtitles {
 			}
 		}
 	}
+	if len(s.Items) > 1 && r.chance(1, 4) {
+		// a cue without text in front of cues with text (a writer that skips it must not compact the caller's list)
+		s.Items[r.intn(len(s.Items)-1)].Lines = nil
+	}
 	if r.bool() {
 		s.Metadata = &astisub.Metadata{Title: "t", Language: astisub.LanguageFrench, Framerate: 25}
 		if r.bool() {
 			d := time.Date(2020, 1, 2, 0, 0, 0, 0, time.UTC)
+			if r.chance(1, 3) {
+				d = time.Time{} // the zero time is a supplied date as well
+			}
 			s.Metadata.STLCreationDate = &d
 			s.Metadata.STLRevisionDate = &d
 		}
